@@ -238,7 +238,19 @@ pub fn native(cfg: &RunCfg, extra: &mut Extra) {
                 let (l, r) = (t(rng.dyadic(-9.0, -0.1)), t(rng.dyadic(0.1, 9.0)));
                 let (b, tp) = (t(rng.dyadic(-9.0, -0.1)), t(rng.dyadic(0.1, 9.0)));
                 let h = t(rng.dyadic(0.5, 20.0));
-                let which = rng.below(20);
+                let which = rng.below(23);
+                // the free functions and the struct conversions (`Matrix4::from(PerspectiveFov {..})`, ...)
+                // are two entry points to the same constructors: half of the cases use the structs
+                let via = rng.bool();
+                let perspective = |fovy: Rad<$T>, aspect: $T, near: $T, far: $T| -> Matrix4<$T> {
+                    if via { Matrix4::from(PerspectiveFov { fovy, aspect, near, far }) } else { perspective(fovy, aspect, near, far) }
+                };
+                let frustum = |left: $T, right: $T, bottom: $T, top: $T, near: $T, far: $T| -> Matrix4<$T> {
+                    if via { Matrix4::from(Perspective { left, right, bottom, top, near, far }) } else { frustum(left, right, bottom, top, near, far) }
+                };
+                let planar = |fovy: Rad<$T>, aspect: $T, height: $T, near: $T, far: $T| -> Matrix4<$T> {
+                    if via { Matrix4::from(PlanarFov { fovy, aspect, height, near, far }) } else { planar(fovy, aspect, height, near, far) }
+                };
                 // (description, expect_panic, closure result)
                 let (desc, expect, res): (&str, bool, Result<bool, String>) = match which {
                     0 => ("perspective valid", false, catch(|| perspective(Rad(fovy), aspect, near, far).is_finite())),
@@ -273,6 +285,9 @@ pub fn native(cfg: &RunCfg, extra: &mut Extra) {
                         let (n2, f2) = if rng.chance(1, 3) { (focal - t(1.0), focal + t(3.0)) } else { (n2, f2) };
                         ("planar focal point between the planes", true, catch(|| planar(Rad(-sign * fv), aspect, h, n2, f2).is_finite()))
                     }
+                    19 => ("planar fovy = 0 and aspect = 0", true, catch(|| planar(Rad(t(0.0)), t(0.0), h, near, far).is_finite())),
+                    20 => ("planar fovy = 0 and near = far", true, catch(|| planar(Rad(t(0.0)), aspect, h, near, near).is_finite())),
+                    21 => ("planar fovy = 0 and height < 0", true, catch(|| planar(Rad(t(0.0)), aspect, -h, near, far).is_finite())),
                     _ => {
                         // fovy = 0: orthographic limit, exact with power-of-two parameters
                         let (hh, aa, nn, ff) = (t(4.0), t(2.0), t(1.0), t(3.0));
